@@ -145,6 +145,30 @@ def inner_schemas(d):
     return res
 
 
+_pairs = {}
+PAIR_U = [None, True, 0, HUGE, 1.5, "", "a", [], [1, "a"], [[], {}], {}, {"a": 1}, {"a": 1, "b": 2}, {"": 0}]
+
+
+def pair_schemas(d):
+    """All ordered pairs of accepted hostile singles (at most 5 values per keyword), accepted as a pair."""
+    if d not in _pairs:
+        per = {}
+        for sch in inner_schemas(d):
+            if len(sch) == 1 and usable(sch):
+                (k, w), = sch.items()
+                if k in _e1.CLS[d].VALIDATORS or k in ("then", "else", "exclusiveMinimum", "exclusiveMaximum"):
+                    per.setdefault(k, [])
+                    if len(per[k]) < 5:
+                        per[k].append(w)
+        singles = [(k, w) for k, ws in per.items() for w in ws]
+        out = []
+        for (k1, w1), (k2, w2) in itertools.permutations(singles, 2):
+            if k1 != k2:
+                out.append({k1: w1, k2: w2})
+        _pairs[d] = out
+    return _pairs[d]
+
+
 def ok_schema(d, s):
     try:
         _e1.CLS[d].check_schema(s)
@@ -307,9 +331,14 @@ def plan(ctx):
         for w in wraps:
             for i in range(n if w[0] == "id" else max(1, n // 4)):
                 units.append((d, w[0], i, n if w[0] == "id" else max(1, n // 4)))
+    if ctx.thorough:
+        for d in _e1.DRAFTS:
+            sizes["hostile_pairs_d%d" % d] = len(pair_schemas(d))
+            units += [(d, "pairs", i, 32) for i in range(32)]
     return {
         "units": units,
-        "rule": ("every {keyword: w} for every keyword name of any draft and every w in the hostile universe W "
+        "rule": ("(thorough tier also: all ordered pairs of accepted hostile singles, <= 5 values per keyword, "
+                 "x 14 instances) every {keyword: w} for every keyword name of any draft and every w in the hostile universe W "
                  "(every $ref from a list of local / dangling / remote / malformed strings), plus sibling-group "
                  "products over W, kept iff the draft's real check_schema accepts it and its regexes compile; "
                  "each alone (through is_valid, list(iter_errors), validate, jsonschema.validate, and iter_errors "
@@ -322,7 +351,34 @@ def plan(ctx):
     }
 
 
+def run_pairs(unit, ctx):
+    d, _, shard, n = unit
+    signal.signal(signal.SIGALRM, _alarm)
+    ps = pair_schemas(d)
+    ev = nsch = 0
+    viol, outcomes = [], {}
+    for i in range(shard, len(ps), n):
+        S = ps[i]
+        if not ok_schema(d, S):
+            continue
+        nsch += 1
+        cyc = has_inplace_cycle(d, S)
+        for x in (U_CYCLIC if cyc else PAIR_U):
+            ev += 1
+            r = run_one(d, S, x, "iter_errors")
+            key = "ok" if r is None else r[0]
+            outcomes[key] = outcomes.get(key, 0) + 1
+            if r is not None:
+                viol.append({"signature": "C03|%s|%s" % r, "size": len(str(S)) + len(str(x)[:50]),
+                             "case": {"draft": d, "schema": S, "instance": x, "entry": "iter_errors"},
+                             "detail": {"exception": r[0], "where": r[1], "position": "ordered pair"}})
+    return {"evaluations": ev, "nontrivial": ev, "violations": viol, "samples": [], "outcomes": outcomes,
+            "counters": {"pair_schemas_run": nsch}}
+
+
 def run_unit(unit, ctx):
+    if unit[1] == "pairs":
+        return run_pairs(unit, ctx)
     d, wname, shard, n = unit
     signal.signal(signal.SIGALRM, _alarm)
     U = uplus(ctx.tier)
